@@ -576,6 +576,15 @@ func c17FreshDecodeTarget(c *Ctx, r *Report) {
 				}
 				break
 			}
+			// a member of a local object (the request/answer kept in a per-call state struct) is as
+			// fresh as that object
+			for {
+				fa, isFA := target.(*ssa.FieldAddr)
+				if !isFA {
+					break
+				}
+				target = fa.X
+			}
 			al, ok := target.(*ssa.Alloc)
 			if !ok {
 				r.viol("C17.R7", key, posOf(c, call), "the message is decoded into "+describe(target)+", not into a local object made for this decode: members whose AVPs are absent keep whatever the object held before")
